@@ -384,7 +384,7 @@ func genZoo(t *rapid.T, kind string) ([]byte, []string) {
 		g.traversal()
 		g.zws("eol")
 	}
-	return append([]byte(nil), g.sb.Bytes()...), append([]string{"focus:" + focus}, g.note.labels()...)
+	return append([]byte(nil), g.sb.Bytes()...), append([]string{"focus:" + focus}, g.labels()...)
 }
 
 // ---------------------------------------------------------------------------------
